@@ -64,8 +64,13 @@ func (m *verifMonitor) outcome(op string, n int) int {
 func (m *verifMonitor) dial() (ClosableClientConnection, error) {
 	m.dials++
 	m.event()
-	if m.outcome("connect", 2) == 1 {
+	switch m.outcome("connect", 3) {
+	case 1:
 		return nil, errors.New("connection refused (scripted)")
+	case 2:
+		// black-holed upstream: the dial returns only when its own timeouts expire
+		time.Sleep(defs.ForwarderConnectionTimeout + defs.ForwarderHandshakeTimeout)
+		return nil, errors.New("connection timed out (scripted)")
 	}
 	c := &verifConn{n: len(m.conns), mon: m, closed: make(chan struct{})}
 	m.conns = append(m.conns, c)
@@ -217,8 +222,12 @@ func verifClientScenario(byID bool, k, faults, ackQueue int, maxDuration time.Du
 		}
 	}
 	close(in)
+	stopAt := sym.VirtualNow()
 	closed.Signal()
 	w.Stopped().WaitForever() // deadlock = the client does not terminate after the stop request
+	// C18: every wait on the stop path is interrupted by the stop request; the only time that may pass
+	// is the deadline of one operation that is hung on a connection nobody can abort any more (1 s in this script)
+	sym.Assert(sym.VirtualNow()-stopAt <= int(2*time.Second), "the client stops within the deadline of one hung operation after the stop request")
 	// ---- every chunk taken from the queue is resolved exactly once ----
 	var notTaken []string
 	for c := range in {
